@@ -67,16 +67,17 @@ class MemECUTransport:
 class StubDB:
     """db handler double: every coroutine method is a no-op, selected calls are recorded."""
 
-    def __init__(self) -> None:
+    def __init__(self, stored: dict[int, list[int]] | None = None) -> None:
         self.transitions: list[tuple[int, list[int]]] = []
         self.connection = None
         self.meta = None
+        self.stored = stored or {}  # session transitions an earlier run has left in the database
 
     async def insert_session_transition(self, destination: int, steps: list[int]) -> None:
         self.transitions.append((destination, list(steps)))
 
     async def get_session_transition(self, destination: int) -> list[int] | None:
-        return None
+        return self.stored.get(destination)
 
     def __getattr__(self, name: str) -> Any:
         async def noop(*a: Any, **kw: Any) -> None:
@@ -101,7 +102,7 @@ class ResultTap(logging.Handler):
 
 
 def run_scanner(scanner_cls: Any, config: Any, server: Any, budget: int = 200000, with_db_stub: bool = True, max_virtual: float = 5e6,
-                after_reply: Any = None, mute: Any = None) -> dict[str, Any]:
+                after_reply: Any = None, mute: Any = None, db_stored: dict[int, list[int]] | None = None) -> dict[str, Any]:
     wire: list[tuple[int, bytes, bytes | None]] = []
     box: dict[str, Any] = {}
     tap = ResultTap()
@@ -118,7 +119,7 @@ def run_scanner(scanner_cls: Any, config: Any, server: Any, budget: int = 200000
         scanner = scanner_cls(config)
         box["scanner"] = scanner
         if with_db_stub:
-            scanner.db_handler = StubDB()
+            scanner.db_handler = StubDB(db_stored)
             box["db"] = scanner.db_handler
         lg = logging.getLogger("gallia")
         old = lg.level
